@@ -22,7 +22,11 @@ func BasicAuthMiddleware(login, pass string) func(next http.Handler) http.Handle
 				return
 			}
 
-			payload, _ := base64.StdEncoding.DecodeString(authParts[1])
+			payload, err := base64.StdEncoding.DecodeString(authParts[1])
+			if err != nil {
+				http.Error(w, "Invalid authorization header", http.StatusBadRequest)
+				return
+			}
 			pair := strings.SplitN(string(payload), ":", 2)
 
 			if len(pair) != 2 || pair[0] != login ||
